@@ -28,6 +28,7 @@ type pulled struct {
 	stop   func()
 	taken  int
 	expect []MObj
+	atOps  int // write transaction's operation count when the sequence was obtained
 }
 
 func sortedKey(p []string) string {
